@@ -146,4 +146,31 @@ pub(crate) mod arrays {
             kani::cover!(true);
         }
     }
+
+    // [Fp61BitPrime; 15] "ProofDiff" message (120 bytes): lane-wise canonical, lossless
+    harness! {
+        #[kani::unwind(18)]
+        fn q09_proof_diff() {
+            type ProofDiff = [Fp61BitPrime; 15];
+            let bytes: [u8; 120] = kani::any();
+            let k: usize = kani::any();
+            kani::assume(k < 15);
+            let i: usize = kani::any();
+            kani::assume(i < 120);
+            assert!(<<ProofDiff as Serializable>::Size as Unsigned>::USIZE == 120);
+            match <ProofDiff as Serializable>::deserialize(ga!(bytes)) {
+                Ok(x) => {
+                    assert!(le64(&bytes[8 * k..8 * k + 8]) < P61, "every lane canonical (lane k symbolic)");
+                    let mut out = [0xA5u8; 120];
+                    x.serialize(ga_mut!(out));
+                    assert!(out[i] == bytes[i], "re-encoding reproduces every byte");
+                    kani::cover!(true);
+                }
+                Err(e) => {
+                    std::mem::forget(e);
+                    kani::cover!(true);
+                }
+            }
+        }
+    }
 }
